@@ -475,6 +475,9 @@ type rnode struct {
 	Z        int     `json:"z"`
 	ID       int     `json:"id"`
 	Sparse   bool    `json:"sparse,omitempty"`
+	// Wide: the surface holds two-column graphemes, one of them starting in
+	// its last column (where it does not fit)
+	Wide     bool    `json:"wide_graphemes,omitempty"`
 	Children []rnode `json:"children,omitempty"`
 }
 
@@ -499,6 +502,11 @@ func (n rnode) surface() vxfw.Surface {
 			continue
 		}
 		s.Buffer[i] = vaxis.Cell{Character: vaxis.Character{Grapheme: letters(n.ID), Width: 1}, Style: vaxis.Style{Foreground: vaxis.IndexColor(uint8(1 + n.ID%200))}}
+		if col := i % n.W; n.Wide && (col == n.W-1 || (col%5 == 1 && col+1 < n.W-1)) {
+			s.Buffer[i].Character = vaxis.Character{Grapheme: "\u4f60", Width: 2}
+		} else if n.Wide && col > 0 && s.Buffer[i-1].Width == 2 {
+			s.Buffer[i] = vaxis.Cell{} // the second column of the wide grapheme
+		}
 	}
 	for _, c := range n.Children {
 		ss := vxfw.NewSubSurface(c.Col, c.Row, c.surface())
@@ -746,7 +754,7 @@ func genRTree(r gen.R, cols, rows int) *rnode {
 	id := 0
 	var mk func(depth, pw, ph int) rnode
 	mk = func(depth, pw, ph int) rnode {
-		n := rnode{ID: id, Sparse: r.Intn(4) == 0}
+		n := rnode{ID: id, Sparse: r.Intn(4) == 0, Wide: r.Intn(3) == 0}
 		id++
 		n.W = r.Intn(pw + 3)
 		n.H = r.Intn(ph + 2)
